@@ -52,6 +52,11 @@ func init() {
 								cfg.ClientNoFC, cfg.ServerNoFC = true, true
 							}
 							out = append(out, Case{Family: "cancel", Seed: rng.Int63(), Cfg: cfg, P: map[string]int{"k": k}, S: map[string]string{"target": sp.ID, "how": how}})
+							switch sp.ID {
+							case "ss3", "u2", "cs2", "done":
+								// the cancel races with delivery of the peer's pending frames (close, data, window updates)
+								out = append(out, Case{Family: "cancel", Seed: rng.Int63(), Cfg: cfg, P: map[string]int{"k": k, "race": 1}, S: map[string]string{"target": sp.ID, "how": "cancel"}})
+							}
 						}
 					}
 				}
@@ -126,6 +131,28 @@ func famCancel(w *World, c *Case, rng *rand.Rand) {
 		}
 	}
 	before := openSet(w.Env, target)
+	race := c.p("race", 0) == 1
+	if race {
+		// park the client's receive loop and finish path for PRNG-chosen virtual
+		// durations so that either side of the race can win
+		plan := &YieldPlan{Parks: map[string][]time.Duration{}}
+		for _, pt := range []string{"client.recv.gotFrame", "client.finish.afterDone", "client.cancel.beforeReceiverCancel", "client.finish.betweenPublish"} {
+			ds := make([]time.Duration, 40)
+			for i := range ds {
+				if rng.Intn(3) == 0 {
+					ds[i] = time.Duration(1+rng.Intn(3)) * time.Microsecond
+				}
+			}
+			plan.Parks[pt] = ds
+		}
+		w.installYield(plan)
+		w.Conn.SetGated(false)
+		link.ReleaseAll()
+		if rng.Intn(2) == 0 {
+			time.Sleep(time.Duration(rng.Intn(6)) * time.Microsecond)
+		}
+		w.Stat("cancel_race_runs", 1)
+	}
 	// ---- strike ----
 	t0 := w.VT()
 	if how == "cancel" {
@@ -142,11 +169,11 @@ func famCancel(w *World, c *Case, rng *rand.Rand) {
 	}
 	// A: the caller's operations have returned, without any frame having been delivered
 	for _, r := range w.Env.Log.OpenOps() {
-		if r.RPC == target && r.Side == "client" {
+		if r.RPC == target && r.Side == "client" && !race {
 			w.Violate("C07", "caller-waits-for-peer:"+r.K, "%s of rpc %s (%s, k=%d): caller op %s still blocked although no frame can reach the peer", how, target, w.Cfg, k, r.K)
 		}
 	}
-	if how == "cancel" && w.VT() != t0 {
+	if how == "cancel" && w.VT() != t0 && !race {
 		w.Violate("C07", "caller-return-took-time", "cancel of %s: virtual time advanced by %v", target, w.VT()-t0)
 	}
 	// the peer has not been told yet: a handler waiting on its context must still be waiting
